@@ -155,9 +155,12 @@ Definition token_eqb (a b : token) : bool :=
     [FSinkPanic i] the sink commits page i and the process dies before it returns;
     [FKill i]      the job is cancelled right after the sink wrote page i;
     [FDieBefore i] process death at hook pipeline.beforeToken of page i;
-    [FDieAfter i]  process death at hook pipeline.afterToken of page i. *)
+    [FDieAfter i]  process death at hook pipeline.afterToken of page i;
+    [FSrcFail i]   the i-th call of source.ReadEntities of this run returns an error before it
+                   reads anything (DatasetSource: one call per page; UnionDatasetSource: one call
+                   per run, so only i = 0 can fire). *)
 Inductive fault := FNone | FSinkFail (i : nat) | FSinkPanic (i : nat) | FKill (i : nat)
-                 | FDieBefore (i : nat) | FDieAfter (i : nat).
+                 | FDieBefore (i : nat) | FDieAfter (i : nat) | FSrcFail (i : nat).
 Inductive outcome := OOk | OFailed | ODied.
 
 Definition is_sinkfail (f : fault) (i : nat) := match f with FSinkFail j => Nat.eqb i j | _ => false end.
@@ -165,6 +168,8 @@ Definition is_sinkpanic (f : fault) (i : nat) := match f with FSinkPanic j => Na
 Definition is_kill (f : fault) (i : nat) := match f with FKill j => Nat.eqb i j | _ => false end.
 Definition is_diebefore (f : fault) (i : nat) := match f with FDieBefore j => Nat.eqb i j | _ => false end.
 Definition is_dieafter (f : fault) (i : nat) := match f with FDieAfter j => Nat.eqb i j | _ => false end.
+
+Definition is_srcfail (f : fault) (i : nat) := match f with FSrcFail j => Nat.eqb i j | _ => false end.
 
 Definition nonempty {A} (l : list A) : bool := match l with [] => false | _ => true end.
 
@@ -199,6 +204,7 @@ Fixpoint inc_single (fuel : nat) (eqf : version -> version -> bool) (dm : dup_mo
   match fuel with
   | O => (sink, stored, OFailed)
   | S fuel' =>
+    if is_srcfail flt idx then (sink, stored, OFailed) else      (* ReadEntities returns an error *)
     let '(page, next) := process_changes lo src (asincr stored) b in
     match proc_inc eqf dm sink stored page (Some next) idx flt with
     | (s, t, Some o) => (s, t, o)
@@ -214,6 +220,7 @@ Fixpoint full_single (fuel : nat) (eqf : version -> version -> bool) (dm : dup_m
   match fuel with
   | O => (sink, mem, seen, OFailed)
   | S fuel' =>
+    if is_srcfail flt idx then (sink, mem, seen, OFailed) else
     let '(page, next) := process_changes lo src (asincr mem) b in
     match proc_full eqf dm sink page idx flt with
     | (s, Some OOk) => (s, Some next, seen ++ ids page, OOk)
@@ -296,7 +303,7 @@ Definition total_len (srcs : list feed) : nat := fold_right (fun f n => length f
 Definition fuel_of (srcs : list feed) : nat := total_len srcs + 2 * length srcs + 2.
 Definition none_tokens (srcs : list feed) : list token := map (fun _ => None) srcs.
 
-Definition run_job (v : variant) (st : state) (r : rcfg) : state * outcome :=
+Definition run_body (v : variant) (st : state) (r : rcfg) : state * outcome :=
   let eqf := weq (vm_eq v) in
   let dm := vm_dup v in
   let srcs := st_srcs st in
@@ -327,6 +334,15 @@ Definition run_job (v : variant) (st : state) (r : rcfg) : state * outcome :=
         inc_single fuel eqf dm (nth 0 (r_los r) false) (r_b r) (nth 0 srcs []) (st_sink st)
                    (nth 0 (st_tok st) None) 0 (r_flt r) in
       (mkSt srcs s (upd 0 t (st_tok st)), o).
+
+(** the single ReadEntities call of a union source fails: nothing is read or written; a
+    fullsync has already started (sink in fullsync mode, token reset in memory / persisted) *)
+Definition run_job (v : variant) (st : state) (r : rcfg) : state * outcome :=
+  if r_union r && is_srcfail (r_flt r) 0 then
+    (mkSt (st_srcs st) (st_sink st)
+          (if r_full r then match vm_fs v with FsKeep => st_tok st | FsReset => none_tokens (st_srcs st) end
+           else st_tok st), OFailed)
+  else run_body v st r.
 
 (** ** Histories: source writes, foreign writes to the sink dataset, job runs *)
 Inductive op :=
